@@ -208,6 +208,34 @@ func main() {
 		addCase(c)
 	}
 
+	// INPUTMODE / OUTPUTMODE / FS / RS changed at run time in the middle of a stream, crossed with
+	// NF / $i / getline-into-variable on the stream opened under the other setting (oracle: no panic)
+	for _, from := range []string{"csv", "tsv", "csv-header", ""} {
+		for _, sw := range []string{`INPUTMODE = ""`, `INPUTMODE = "csv"`, `INPUTMODE = "tsv"`, `INPUTMODE = "csv header"`, `OUTPUTMODE = "csv"`,
+			`FS = ","`, `FS = ""`, `RS = ""`, `RS = ","`, `RS = "[,\n]+"`, `INPUTMODE = ""; FS = ","; RS = ";"`} {
+			for _, use := range []string{
+				`n = NF; getline x; print n, x, "[" $3 "]", NF`,
+				`v = $1; getline A[1]; print $2, $3, $4; $4 = "z"; print NF`,
+				`getline x; n = NF; getline $2; print; print $5`,
+				`n = NF; getline; print $1, $4; getline y; $3 = y; print`,
+			} {
+				c := api("mode-switch", "NR == 1 { "+sw+"; "+use+" } NR > 1 { print NF, $1, $NF; "+use+" }", "p,q\na,b,c\n\"d,e\",f\tg\th,i,j,k\nl;m\n\nn,o,p,q,r,s\n")
+				c.InMode = from
+				addCase(c)
+			}
+		}
+	}
+	// the same on getline file / pipe streams opened under the other mode (child process: real files)
+	for _, pr := range []string{
+		`{ INPUTMODE = "csv"; getline x < "f.csv"; INPUTMODE = ""; n = NF; getline y < "f.csv"; print n, y, "[" $3 "]", $2 }`,
+		`{ INPUTMODE = "tsv"; "cat f.csv" | getline x; INPUTMODE = ""; v = $1; "cat f.csv" | getline A[1]; print $2, $3, $4 }`,
+		`BEGIN { INPUTMODE = "csv" } NR == 1 { INPUTMODE = ""; n = NF; getline x; print n, x, "[" $3 "]", NF }`,
+		`BEGIN { getline x < "f.csv"; INPUTMODE = "csv" } { n = NF; getline y < "f.csv"; print $1, $2, $3 }`,
+	} {
+		c := cliFile("mode-switch-cli", "p q\na,b,c\n", "f.csv", "a,b\nc,d,e,f\ng\th\ti\n", pr)
+		addCase(c)
+	}
+
 	// ---- 5. recursion depth: exactly at the limit is fine, one more is an error, never a crash ----
 	// Depths up to a few thousand run in-process (harmless for the Go stack even if the limit were
 	// missing); unbounded recursion runs in a child process, where losing the limit shows up as a
@@ -527,9 +555,9 @@ func rsCorrespondence(o hx.Opts, rep *hx.Report) {
 // model of the CSV-mode field slices (f_run) vs the implementation: sequences of records,
 // `getline var`, NF uses and $i reads; the model says "panic" exactly when ExecProgram panics
 func fieldsCorrespondence(o hx.Opts, rep *hx.Report, r *hx.Rand, thorough bool) {
-	n := 250
+	n := 400
 	if thorough {
-		n = 6000
+		n = 8000
 	}
 	type seq struct {
 		ops   []string
@@ -544,8 +572,22 @@ func fieldsCorrespondence(o hx.Opts, rep *hx.Report, r *hx.Rand, thorough bool) 
 		line := func(k int) string { return strings.TrimSuffix(strings.Repeat("x,", k), ",") + "\n" }
 		body := func(first bool) string {
 			var b strings.Builder
-			for j := r.Intn(5); j > 0; j-- {
-				switch r.Intn(4) {
+			for j := r.Intn(6); j > 0; j-- {
+				sel := r.Intn(4)
+				// INPUTMODE switched in the middle of the stream (never before the scanner of the
+				// main input exists: its splitter is fixed at creation, here always the CSV one)
+				if !first && i%2 == 1 && r.Intn(3) == 0 {
+					sel = 4
+				}
+				switch sel {
+				case 4:
+					if r.Intn(3) > 0 {
+						ops = append(ops, "M:0")
+						b.WriteString(`INPUTMODE = ""; `)
+					} else {
+						ops = append(ops, "M:1")
+						b.WriteString(`INPUTMODE = "csv"; `)
+					}
 				case 0:
 					ops = append(ops, "N")
 					b.WriteString("n = NF; ")
@@ -572,7 +614,7 @@ func fieldsCorrespondence(o hx.Opts, rep *hx.Report, r *hx.Rand, thorough bool) 
 		src.WriteString("{ r++ }\n")
 		for rec := 1; rec <= 1+r.Intn(3); rec++ {
 			k := 1 + r.Intn(4)
-			ops = append(ops, fmt.Sprintf("R:%d", k))
+			ops = append(ops, fmt.Sprintf("R:%d:1", k)) // "x,x,..": one field under the default split
 			in.WriteString(line(k))
 			fmt.Fprintf(&src, "r == %d { %s}\n", rec, body(false))
 		}
@@ -580,6 +622,9 @@ func fieldsCorrespondence(o hx.Opts, rep *hx.Report, r *hx.Rand, thorough bool) 
 	}
 	// the witness of the refuted statement first
 	seqs = append(seqs, seq{[]string{"N", "G:3", "F:1"}, "BEGIN { n = NF; getline x; v = $1 }", "a,b,c\n"})
+	// a CSV scanner that outlives the switch back to default mode
+	seqs = append(seqs, seq{[]string{"R:2:1", "M:0", "N", "G:3", "F:3"}, `NR == 1 { INPUTMODE = ""; n = NF; getline x; v = $3 }`, "p,q\na,b,c\n"})
+	seqs = append(seqs, seq{[]string{"R:1:1", "F:1", "M:0", "G:4", "F:2", "F:4"}, `NR == 1 { v = $1; INPUTMODE = ""; getline A[1]; v = $2; v = $4 }`, "p\na,b,c,d\n"})
 	for i := 0; i < n; i++ {
 		seqs = append(seqs, gen(i))
 	}
